@@ -452,6 +452,12 @@ def _prediction(case):
     pred, psrc = _source(pcase, base=50000, n_rdm=1)
     if case.get('pred') == 'model':
         pred = ModelFixed('m', pred).predict_rdm()
+    elif case.get('pred') == 'model-weighted':       # one basis RDM with weight 1: predicts that RDM
+        from rsatoolbox.model import ModelWeighted
+        pred = ModelWeighted('m', pred).predict_rdm(np.array([1.0]))
+    elif case.get('pred') == 'model-select':         # one candidate, selected
+        from rsatoolbox.model import ModelSelect
+        pred = ModelSelect('m', pred).predict_rdm(0)
     elif case.get('pred') == 'model-reordered':
         # the model RDM was stored in another condition order and brought into the order of the data with RDMs.reorder (which
         # permutes every pattern descriptor, also 'index'); the fixed model built from it predicts in the order of the data
@@ -1094,6 +1100,9 @@ def tier_c(run, thorough):
             if True:   # recorded as open finding (was pending triage): default-index,user-supplied-index,prediction-of-ModelFixed
                 # ModelFixed.__init__ overwrites the 'index' pattern descriptor of the RDMs it is given with 0..n-1, so the
                 # prediction resampled with the returned (user) index values has no / other conditions than the sample
+                for pk in ('model-weighted', 'model-select'):
+                    bd.check(orc_pattern, dict(case, pred=pk), 'default-index,user-supplied-index,prediction-of-flexible-model',
+                             function='bootstrap_sample_pattern')
                 bd.check(orc_pattern, dict(case, pred='model'), 'default-index,user-supplied-index,prediction-of-ModelFixed',
                          function='bootstrap_sample_pattern')
     bd.done()
